@@ -154,23 +154,26 @@ fn judge(
         (None, None) => a.describe() == b.describe(),
         _ => false,
     };
-    if !same {
-        stats.nondeterministic += 1;
-        eprintln!("NONDETERMINISTIC (confirmation runs differ):\n{}\n  first: {:?}\n  second: {:?}", src, ra, rb);
-        return;
-    }
     let confirmed = match &ra {
         Some(r) => compare(model, r, case.opts),
         None => Some(format!("run ended in {}", a.describe())),
     };
-    let Some(mismatch2) = confirmed else {
-        // the disagreement does not reproduce alone: history dependence inside a batch of independent
-        // programs on fresh interpreters cannot be the program's doing
+    let confirmed_b = match &rb {
+        Some(r) => compare(model, r, case.opts),
+        None => Some(format!("run ended in {}", b.describe())),
+    };
+    // A case is a violation when it disagrees with the model in the batch and in both runs alone - also
+    // when the three runs disagree with it in different ways (behaviour that depends on addresses or on
+    // freed memory varies from run to run and is no less wrong for that).  A disagreement that does not
+    // repeat every time is unstable: reported at the end, and no verdict if nothing else was found.
+    let (Some(mut mismatch2), Some(_)) = (confirmed, confirmed_b) else {
         stats.nondeterministic += 1;
-        eprintln!("NONDETERMINISTIC (mismatch in batch does not reproduce alone): {}\n{}\n  batch: {:?}\n  alone: {:?}", mismatch, src, first, ra);
-        let _ = mismatch;
+        eprintln!("UNSTABLE (a disagreement with the model that does not repeat in every run): {}\n{}\n  batch: {:?}\n  alone: {:?}\n  alone again: {:?}", mismatch, src, first, ra, rb);
         return;
     };
+    if !same {
+        mismatch2 = format!("{} (a second run alone disagrees with the model differently: {:?})", mismatch2, rb.as_ref().map(|r| r.out.iter().take(6).cloned().collect::<Vec<_>>()));
+    }
     let observed = match &ra {
         Some(r) => r.clone(),
         None => SnippetResult { out: vec![], outcome: proto::Outcome::Panic { msg: a.describe() } },
@@ -321,7 +324,7 @@ where
     for p in parts {
         total.merge(p);
     }
-    if total.nondeterministic > 0 {
+    if total.nondeterministic > 0 && total.violations.is_empty() {
         crate::pool::machinery_failure(&format!("{} cases behaved differently when re-run: the harness does not own all nondeterminism", total.nondeterministic));
     }
     total
